@@ -207,6 +207,31 @@ def k_bee():
             "hdr_kib_key": hdr._kib.kib_key, "hdr_prdb_counter": hdr._prdb.counter}, b""
 
 
+def k_bee_cfg_both():
+    """BEE through the configuration entry point with both engines generated: two region headers (two exported files)
+    come out of one call - each must carry its own invented KIB key/IV and PRDB counter."""
+    from spsdk.image.bee import BeeNxp
+
+    d = os.path.join(TESTS, "nxpimage", "data", "bee")
+    cfg = {
+        "output_folder": "bee_output", "input_binary": os.path.join(d, "evkbimxrt1050_iled_blinky_ext_FLASH_unencrypted_nopadding.bin"),
+        "engine_selection": "both", "engine_key_selection": "random", "base_address": "0x60001000",
+        "bee_engine": [
+            {"bee_cfg": {"user_key": "0x0123456789abcdeffedcba9876543210",
+                         "protected_region": [{"start_address": "0x60001000", "length": "0x1000", "protected_level": 0}]}},
+            {"bee_cfg": {"user_key": "0x0123456789abcdeffedcba9876543210",
+                         "protected_region": [{"start_address": "0x60002000", "length": "0x1000", "protected_level": 0}]}},
+        ],
+    }
+    bee = BeeNxp.load_from_config(cfg)
+    fields = {}
+    for i, h in enumerate(bee.headers):
+        fields[f"e{i}_kib_key"] = h._kib.kib_key
+        fields[f"e{i}_kib_iv"] = h._kib.kib_iv
+        fields[f"e{i}_prdb_counter"] = h._prdb.counter
+    return fields, b""
+
+
 def k_sb1():
     """SB 1.x image: DEK and MAC are chosen at construction (kept in the object; the format stores them for encrypted files)."""
     from spsdk.sbfile.sb1.images import SecureBootV1
@@ -299,7 +324,7 @@ KINDS = {"sb20": k_sb20, "sb21": k_sb21, "advp": k_advp, "sb21cfg": k_sb21cfg, "
          "otfad": k_otfad, "iee": k_iee, "bee": k_bee, "hab": k_hab, "hexstr": k_hexstr,
          "sb21cfg_same": lambda: k_sb21cfg(True), "mbi_cfg_same": lambda: k_mbi_cfg(True), "hab_same": lambda: k_hab(True),
          "mbi_cfg_sameobj": lambda: k_mbi_cfg(False, True),
-         "sb1": k_sb1, "bootimgrt": k_bootimgrt, "dice": k_dice}
+         "sb1": k_sb1, "bootimgrt": k_bootimgrt, "dice": k_dice, "bee_cfg_both": k_bee_cfg_both}
 
 
 def fork_mode():
